@@ -132,6 +132,38 @@ CLAIMED = {
              "(a static formula transformation), validated by correspondence; dense time by correspondence against rhoD; tie sampled.",
         technique="Lean 4 proof (formula transformation + C01/C02) + differential correspondence",
         design="DESIGN.md §4 C06"),
+    "C04": dict(
+        text="Machine-checked proof (Lean 4) that the executable dense-time semantics rhoD (what the real monitor is compared with) "
+             "is, for piecewise-constant inputs, the supremum/infimum semantics over closed time windows: every operator clause "
+             "holds with IsLUB/IsGLB over the (infinite) set of time points of the window; the robustness signal of every formula "
+             "is a right-continuous step function whose break-points lie among a computed finite candidate set, defined exactly "
+             "from the start of the common input domain; the bottom-up evaluator used by the driver equals the point-wise "
+             "definition. Correspondence: the real dense offline evaluate() vs rhoD as step functions (all break-points of both "
+             "sides, bound-shifted input break-points and mid-points), non-decreasing time stamps, start of the domain.",
+        note="Lean kernel + standard axioms; the interval-stack algorithms of the Python code are NOT mirrored: the code is tied to "
+             "the proved semantics by the sampled correspondence only; until/since are read with the left operand on the closed "
+             "interval up to the witness (what the monitors implement); known finding F37 (signals not starting at 0) excluded by region.",
+        technique="Lean 4 proof (step-function theory: finite folds = LUB/GLB over real windows) + differential correspondence against the proved semantics",
+        design="DESIGN.md §4 C04"),
+    "C05": dict(
+        text="Partial. Machine-checked (Lean 4): the dense semantics of a past formula at t depends on the input signals up to t "
+             "only (causality), hence any two chunked presentations of the same signals that cover t determine the same value at t "
+             "(and, for bounded future, up to t+hor). The online algorithms (interval stacks with remainders) are not mirrored; they "
+             "are tied to the semantics by exploring, for every generated (specification, signals), all chunkings at the input "
+             "time stamps (up to 64; thorough 512) plus per-variable chunkings: concatenated output has non-decreasing time stamps "
+             "and agrees with rhoD wherever it is defined.",
+        note="Lean kernel + standard axioms for the semantic statements; chunk-independence of the real code is explored, not proved; "
+             "known findings F21 (bounded operators across batches), F30 (two constants), F32 (since) excluded by region.",
+        technique="Lean 4 proof of causality on the dense semantics + exhaustive small-scope exploration of chunkings on the real code",
+        design="DESIGN.md §4 C05"),
+    "C19": dict(
+        text="Machine-checked proof (Lean 4) that for formulas of the fragment (arithmetic, comparisons, Boolean, once/historically "
+             "bounded or not, bounded eventually/always) the dense-time semantics of the step signal sampled with period P, read at "
+             "k*P, equals the discrete-time rho at sample k whenever k + hor < n. Correspondence: the real dense and the real "
+             "discrete offline monitors on the same grid signal, against each other and against both models.",
+        note="Lean kernel + standard axioms; signals start at time 0; tie sampled.",
+        technique="Lean 4 proof (window LUB over the reals = discrete maximum over grid points, via the step-function theory) + differential correspondence",
+        design="DESIGN.md §4 C19"),
     "C11": dict(
         text="Partial by nature. Machine-checked (Lean 4): two model monitors driven in any interleaving return what each returns "
              "alone; offline evaluation is a function of (specification, data); the padding of bounded future operators builds a "
